@@ -248,9 +248,23 @@ def replay(real, hist, out, label, strict=True, alias_notes=None):
     nops += 1
     if r != untouched and alias_notes is not None and op not in ("storeload",):
       if real.state_id(regs[untouched]) != before_other:
-        alias_notes.append({"family": label, "history": hist[:k + 1],
+        alias_notes.append({"family": label, "history": hist[:k + 1], "op": op,
                             "note": "the register not written by the operation changed (aliasing)"})
   return nops
+
+
+def frame_violations(run, alias):
+  """Frame condition: an operation on one register never changes the state held by the other one
+  (with_condition / merge_into return NEW states; the spec's registers have value semantics, so a
+  real history in which the untouched register changes is not a behaviour of FlowState.tla)."""
+  for n in alias:
+    last = n["history"][-1]
+    run.violation("C18:frame:%s:other-state-changed" % n["op"],
+                  "after %s on register %s the state held by the other register changed: a state "
+                  "returned by an earlier operation is aliased with its input (family %s, history of "
+                  "%d operations)" % (n["op"], last.get("r"), n["family"], len(n["history"])),
+                  {"source": {"family": n["family"], "history": n["history"]}, "case": {"kind": "frame"},
+                   "clause": "frame"})
 
 
 def resolve(hist, menu):
@@ -531,7 +545,9 @@ def main():
     out = Cases()
     src = case["source"]
     if "history" in src:
-      replay(real, src["history"], out, "replay")
+      alias = []
+      replay(real, src["history"], out, "replay", alias_notes=alias)
+      frame_violations(run, alias)
     elif "cond_app" in src:
       app = src["cond_app"]
       cond_cases(real, app["args"], [{"op": app["op"], "args": list(range(1, len(app["args"]) + 1))}],
@@ -606,8 +622,8 @@ def main():
     run.put("histories_" + label, len(hs))
   run.put("histories_replayed", nhist)
   run.put("real_operations_executed", nops)
-  for n in alias[:5]:
-    run.diverge(n)
+  frame_violations(run, alias)
+  run.put("frame_checks", nops)
   print("  replay on real objects: %.0fs (%d histories, %d operations, %d distinct cases)" % (
       time.time() - t1, nhist, nops, len(out.cases)), flush=True)
 
